@@ -18,7 +18,7 @@ from common.util import Result, f2b, b2f, fl, err_kind
 from common import nets, nets_g
 
 ID = 'C13'
-N = {'quick': 700, 'thorough': 30000}
+N = {'quick': 900, 'thorough': 30000}
 LEAN_MODULES = ['GnpyProofs.Props.C13']
 THEOREMS = [f'Gnpy.Verdict.{t}' for t in (
     'updateSnr_formula', 'linSum_spec', 'updateSnr_raw', 'updateSnr_twice', 'updateSnr_history_free',
@@ -26,7 +26,7 @@ THEOREMS = [f'Gnpy.Verdict.{t}' for t in (
     'penalty_below_blocks', 'penalty_above_blocks', 'penalty_inside_finite', 'penalty_segment', 'totalPenalty_inf',
     'penalty_outside_blocks', 'minMetric_spec', 'penalty_normalised',
     'passFixed_iff', 'passAuto_iff', 'verdict_iff', 'verdict_margin', 'fixedReason_spec',
-    'selectMode_spec', 'none_feasible_reason', 'autoReason_spec', 'request_verdict_iff', 'selectMode_served_feasible',
+    'selectMode_spec', 'none_feasible_reason', 'autoReason_spec', 'request_verdict_iff', 'requestCheck_spec', 'selectMode_served_feasible',
     'selectMode_fails_old', 'selectModeOld_accepts_infeasible')] + [
     'Gnpy.HE.rintR_mono', 'Gnpy.HE.abs_rintR_sub_le', 'Gnpy.HE.round2_mono', 'Gnpy.HE.abs_round2_sub_le',
     'Gnpy.HE.round2_grid', 'Gnpy.Verdict.modeOrder_sorted', 'Gnpy.Verdict.mem_modeOrder']
@@ -563,21 +563,22 @@ def run_path(case, drv):
     by_name = {m['format']: m for m in modes}
     # ---- request construction: accepted or rejected with the stated error kind ------------------------------------------
     m_req = by_name.get(case['mode']) if case['mode'] is not None else None
-    exp_err = None
-    if mal == 'unknown_trx' or (case['mode'] is not None and m_req is None):
-        exp_err = 'EquipmentConfigError'
-    elif m_req is not None and m_req['baud_rate'] > m_req['min_spacing']:
-        exp_err = 'EquipmentConfigError'
-    elif m_req is not None and m_req['min_spacing'] > case['spacing']:
-        exp_err = 'ServiceError'
+    exp_err = drv.ask('c13.request_check', trx_known=mal != 'unknown_trx', mode_given=case['mode'] is not None,
+                      mode_found=m_req is not None, baud=int(m_req['baud_rate']) if m_req else 0,
+                      min_spacing=int(m_req['min_spacing']) if m_req else 0, spacing=int(case['spacing']))
     try:
         rqs = _requests(ctx, case, case['mode'])
         impl_err = None
     except Exception as e:   # noqa: BLE001
         impl_err = err_kind(e)
     res.cmp_exact('requests_from_json.error_kind', impl_err, exp_err)
-    if impl_err != exp_err:
-        res.fail(f'request check: request with {mal or "valid"} parameters gave {impl_err}, must give {exp_err}')
+    # monitor (independent of the model): the stated error kind per malformation; valid requests are accepted
+    want = {'unknown_trx': 'EquipmentConfigError', 'unknown_mode': 'EquipmentConfigError',
+            'baud_above_min_spacing': 'EquipmentConfigError'}.get(mal)
+    if mal == 'spacing_below_min' and case['mode'] is not None:
+        want = 'ServiceError'
+    if impl_err != want:
+        res.fail(f'request check: request with {mal or "valid"} parameters gave {impl_err}, must give {want}')
     res.stats.update({'path': 1, f'path_request_{impl_err or "accepted"}': 1})
     if impl_err or exp_err:
         res.nontrivial = True
